@@ -55,6 +55,12 @@ def end_exclusive_ranges(ctx, rid):
         errs = [b for (b, si, k, e) in a.ret_sites() if k == 'err' or (k == 'other' and False)]
         errs += [b for (b, si, k, e) in a.ret_sites() if k != 'ok' and flow.mentions(e, lambda z: z[0] == 'agg' and z[2].endswith('InvalidArguments'))]
         inval = [b for (b, si, k, e) in a.ret_sites() if flow.mentions(e, lambda z: z[0] == 'agg' and z[2].endswith('InvalidArguments'))]
+        # the error may be built in an inlined helper and handed on with `?`: any place that builds InvalidArguments
+        for b_ in sorted(a.cfg.reach0):
+            for st_ in a.blocks[b_]['s']:
+                r_ = st_.get('r')
+                if r_ and r_.get('k') == 'agg' and (r_.get('adt') or '').endswith('CasObjectError') and r_.get('var') == 'InvalidArguments' and b_ not in inval:
+                    inval.append(b_)
         gt = edges_where(a, lambda op, l, r: (op == 'Gt' and is_end(strip(l)) and is_n(strip(r))) or (op == 'Lt' and is_n(strip(l)) and is_end(strip(r))))
         ge = edges_where(a, lambda op, l, r: (op == 'Ge' and is_end(strip(l)) and is_n(strip(r))) or (op == 'Le' and is_n(strip(l)) and is_end(strip(r))))
         n += len(gt)
@@ -74,26 +80,41 @@ def merge_on_full_hash(ctx, rid):
     and consolidation lose one of them, difference drops a record that is not in the other shard."""
     SO = 'mdb_shard::set_operations::'
     a = an(ctx.F.body(SO + 'get_next_actions'))
-    cmps = [c for c in a.calls() if sg(a.term(c).get('fn', '')).split('::')[-1] in ('cmp', 'partial_cmp', 'eq', 'ne', 'lt', 'le', 'gt', 'ge')
-            and any(flow.mentions(a.arg(c, i), lambda z: z[0] == 'param' and z[1] in (1, 2)) for i in range(len(a.term(c)['args'])))]
-    if ctx.check(len(cmps) == 1, rid, a.path, 'comparison', '-', 'one ordering comparison decides the merge step', 'cannot establish: %d comparisons of the two current records' % len(cmps)):
-        c = cmps[0]
+    CMPS = ('cmp', 'partial_cmp', 'eq', 'ne', 'lt', 'le', 'gt', 'ge')
+    cmps = [c for c in a.calls() if sg(a.term(c).get('fn', '')).split('::')[-1] in CMPS
+            and all(flow.mentions(a.arg(c, i), lambda z: z[0] == 'param' and z[1] in (1, 2)) for i in range(len(a.term(c)['args']))) and len(a.term(c)['args']) == 2]
+    if ctx.check(len(cmps) >= 1, rid, a.path, 'comparison', '-', '%d comparison(s) of the two current records decide the merge step' % len(cmps), 'cannot establish: no comparison of the two current records'):
         def bare(e, p):
-            # the hash parameter itself (through the Option/tuple payload projections), no call applied to it
-            while e[0] in ('field', 'variant', 'cast'):
+            # the hash parameter itself (through the Option/tuple payload projections and references), no call applied to it
+            while e[0] in ('field', 'variant', 'cast', 'ref'):
                 e = e[1]
             return e[0] == 'param' and e[1] == p
-        x, y = a.arg(c, 0), a.arg(c, 1)
-        ok = sg(a.term(c)['fn']).split('::')[-1] == 'cmp' and ((bare(x, 1) and bare(y, 2)) or (bare(x, 2) and bare(y, 1)))
-        ctx.check(ok, rid, a.path, 'full hashes', a.loc(c), 'the merge step orders the two records by their full 256-bit hashes',
-                  'the merge step compares %s with %s, not the full hashes of the two records: records that agree on the compared part are taken for one record — a union or consolidation loses one of them, a difference drops a record the other shard does not contain'
-                  % (flow.show(x)[:50], flow.show(y)[:50]))
+        for c in cmps:
+            x, y = a.arg(c, 0), a.arg(c, 1)
+            ok = (bare(x, 1) and bare(y, 2)) or (bare(x, 2) and bare(y, 1))
+            ctx.check(ok, rid, a.path, 'full hashes', a.loc(c), 'the merge step orders the two records by their full 256-bit hashes',
+                      'the merge step compares %s with %s, not the full hashes of the two records: records that agree on the compared part are taken for one record — a union or consolidation loses one of them, a difference drops a record the other shard does not contain'
+                      % (flow.show(x)[:50], flow.show(y)[:50]))
+        # nothing else derived from the hashes decides it
+        other = [c for c in a.calls() if sg(a.term(c).get('fn', '')).split('::')[-1] in CMPS and c not in cmps
+                 and any(flow.mentions(a.arg(c, i), lambda z: z[0] == 'param' and z[1] in (1, 2)) for i in range(len(a.term(c)['args'])))]
+        ctx.check(not other, rid, a.path, 'other comparisons', a.loc(other[0]) if other else '-', 'no comparison involves something derived from only one of the hashes',
+                  'a comparison in the merge step involves a value derived from a record hash (%s)' % (flow.show(a.arg(other[0], 0))[:50] if other else ''))
     f = an(ctx.F.body(SO + 'get_next_actions_for_file_info'))
     fc = [c for c in f.calls() if sg(f.term(c).get('fn', '')).split('::')[-1] in ('cmp', 'eq', 'ne')
           and sum(1 for i in range(len(f.term(c)['args'])) if flow.mentions(f.arg(c, i), lambda z: z[0] == 'field' and z[2] == 'file_hash')) == 2]
     ctx.check(len(fc) >= 1 and all(f.arg(c, i)[0] == 'field' and f.arg(c, i)[2] == 'file_hash' for c in fc for i in (0, 1)), rid, f.path, 'same file', f.loc(fc[0]) if fc else '-',
               'two file records are taken for the same file only on equality of their full file_hash fields')
     dl = [c for c in f.calls(SO + 'get_next_actions')]
+    if not dl:
+        # the fallback may be a local closure
+        for ch in ctx.F.children(f.body):
+            ac = an(ch)
+            cs = ac.calls(SO + 'get_next_actions')
+            if len(cs) == 1 and not any(flow.mentions(ac.arg(cs[0], i), lambda z: z[0] == 'call' and 'truncate' in sg(z[1])) for i in (0, 1)) \
+                    and all(flow.mentions(ac.arg(cs[0], i), lambda z: z[0] == 'field' and z[2] == 'file_hash') or flow.mentions(ac.arg(cs[0], i), lambda z: z[0] in ('upvar', 'param')) for i in (0, 1)):
+                ctx.check(True, rid, f.path, 'delegation', ac.loc(cs[0]), 'otherwise the step is decided by get_next_actions on the two records\' file hashes (in a local closure)')
+                return
     ctx.check(len(dl) == 1 and all(flow.mentions(f.arg(dl[0], i), lambda z: z[0] == 'param' and z[1] == i + 1) and
                                    not flow.mentions(f.arg(dl[0], i), lambda z: z[0] == 'call' and 'truncate' in sg(z[1])) for i in (0, 1)),
               rid, f.path, 'delegation', f.loc(dl[0]) if dl else '-', 'otherwise the step is decided by get_next_actions on the two records\' file hashes')
